@@ -269,16 +269,24 @@ func (this *badgerWAL) CreateSnapshot(idx uint64, confState *raftpb.ConfState, d
 }
 
 func (this *badgerWAL) DeleteGroup() error {
-	if err := this.reset(nil); err != nil {
+	this.cache = new(sync.Map)
+
+	batch := this.db.NewWriteBatch()
+	defer batch.Cancel()
+
+	// Hard state and snapshot go first: a log without hard state is a valid
+	// (uncommitted) log, a hard state without its log is not.
+	if err := batch.Delete(this.hardStateKey()); err != nil {
+		return err
+	}
+	if err := batch.Delete(this.snapshotKey()); err != nil {
+		return err
+	}
+	if err := this.deleteEntriesFromIndex(batch, 0); err != nil {
 		return err
 	}
 
-	return this.db.Update(func(txn *badger.Txn) error {
-		if err := txn.Delete(this.hardStateKey()); err != nil {
-			return err
-		}
-		return txn.Delete(this.snapshotKey())
-	})
+	return batch.Flush()
 }
 
 func (this *badgerWAL) entryPrefix() []byte {
